@@ -324,6 +324,232 @@ theorem step_failed_unchanged (w : World Val) (c : Cfg) (s : St Val) (op : Op Va
       · rfl
     · rename_i hfd; simp [hfd] at h2
 
+/-! ## copies and copy-on-write helpers -/
+
+/-- The generated `__deepcopy__` carries every entry of the instance dict over. -/
+theorem deepcopyObj_eq (o : Obj Val) : deepcopyObj o = o := by
+  cases o with
+  | mk st other => cases st; rfl
+
+/-- `__set__` either succeeds or raises AttributeError with the state untouched. -/
+theorem pset_cases (c : Cfg) (s : St Val) (v : Val) :
+    (pset c s v).2 = .done ∨ pset c s v = (s, .err .attributeError) := by
+  unfold pset
+  by_cases h1 : c.hasSetter = false
+  · by_cases h2 : c.overridable = true
+    · simp [h1, h2]
+    · simp [h1, h2]
+  · simp [h1]
+
+theorem pdelete_cases (c : Cfg) (s : St Val) :
+    (pdelete c s).2 = .done ∨ pdelete c s = (s, .err .attributeError) := by
+  unfold pdelete
+  by_cases h1 : c.hasDeleter = false
+  · by_cases h2 : ((c.overridable || c.cache) && s.slot.isSome) = true
+    · simp [h1, h2]
+    · simp [h1, h2]
+  · simp [h1]
+
+/-- `obj.with_x(v)` is `obj.x = v` performed on a copy: same resulting protocol state, same result; `y` untouched. -/
+theorem withSelf_eq_assign (w : World Val) (c : Cfg) (o : Obj Val) (v : Val)
+    (hs : c.onSpecClass = true) (hm : c.managed = true) :
+    (withSelf w c o v).1.st = (assign w c o.st v).1 ∧ (withSelf w c o v).2.1 = (assign w c o.st v).2 ∧
+      (withSelf w c o v).1.other = o.other := by
+  unfold withSelf assign
+  simp only [hs, hm, Bool.true_eq_false, if_false, if_true, Bool.true_and]
+  cases hp : prepareAttrValue w c v with
+  | error e => simp
+  | ok v' =>
+    simp only
+    by_cases h2 : isSentinel w v' = true
+    · simp [h2]
+    · by_cases h3 : w.conforms v' = true
+      · simp only [h2, h3, Bool.not_true, Bool.false_eq_true, if_false, deepcopyObj_eq]
+        rcases pset_cases c o.st v' with hd | he
+        · generalize hps : pset c o.st v' = r at hd
+          obtain ⟨st', out⟩ := r
+          simp only at hd
+          subst hd
+          exact ⟨rfl, rfl, rfl⟩
+        · rw [he]; exact ⟨rfl, rfl, rfl⟩
+      · simp [h2, h3]
+
+/-- `obj.reset_x()` is `del obj.x` performed on a copy. -/
+theorem resetSelf_eq_delete (c : Cfg) (o : Obj Val) :
+    (resetSelf c o).1.st = (pdelete c o.st).1 ∧ (resetSelf c o).2.1 = (pdelete c o.st).2 ∧
+      (resetSelf c o).1.other = o.other := by
+  unfold resetSelf
+  simp only [deepcopyObj_eq]
+  rcases pdelete_cases c o.st with hd | he
+  · generalize hps : pdelete c o.st = r at hd
+    obtain ⟨st', out⟩ := r
+    simp only at hd
+    subst hd
+    exact ⟨rfl, rfl, rfl⟩
+  · rw [he]; exact ⟨rfl, rfl, rfl⟩
+
+theorem mutateOther_st (w : World Val) (y : Other Val) (o : Obj Val) (v : Val) (b : Bool) :
+    (mutateOther w y o v b).1.st = o.st := by
+  unfold mutateOther
+  split
+  · rfl
+  · split
+    · rfl
+    · split
+      · rfl
+      · simp [deepcopyObj_eq]
+
+/-- One instance-level operation, seen from the property: the protocol operation it projects to, or nothing. -/
+theorem ostep_project (w : World Val) (c : Cfg) (y : Other Val) (o : Obj Val) (op : OOp Val) :
+    (ostep w c y o op).1.st = (match project c op with
+                               | some p => (step w c o.st p).1
+                               | none => o.st) ∧
+    (∀ p, project c op = some p → (ostep w c y o op).2.1 = (step w c o.st p).2) := by
+  cases op with
+  | prop p => exact ⟨rfl, by intro p' hp'; cases hp'; rfl⟩
+  | copy => exact ⟨by simp [ostep, project, deepcopyObj_eq], by intro p hp; cases hp⟩
+  | withOther v =>
+    refine ⟨?_, by intro p hp; cases hp⟩
+    simp only [ostep, project]
+    split
+    · exact mutateOther_st w y o _ false
+    · rfl
+  | resetOther =>
+    refine ⟨?_, by intro p hp; cases hp⟩
+    simp only [ostep, project]
+    split
+    · simp [deepcopyObj_eq]
+    · rfl
+  | setOther v =>
+    refine ⟨?_, by intro p hp; cases hp⟩
+    simp only [ostep, project]
+    split
+    · exact mutateOther_st w y o _ true
+    · rfl
+  | withSelf v =>
+    by_cases h : (c.onSpecClass && c.managed) = true
+    · have hs : c.onSpecClass = true := by revert h; cases c.onSpecClass <;> simp
+      have hm : c.managed = true := by revert h; cases c.managed <;> simp
+      have := withSelf_eq_assign w c o v hs hm
+      simp only [ostep, project, h, if_true]
+      exact ⟨this.1, by intro p hp; cases hp; exact this.2.1⟩
+    · simp only [ostep, project, h]
+      exact ⟨rfl, by intro p hp; cases hp⟩
+  | resetSelf =>
+    by_cases h : (c.onSpecClass && c.managed) = true
+    · have := resetSelf_eq_delete c o
+      simp only [ostep, project, h, if_true]
+      exact ⟨this.1, by intro p hp; cases hp; exact this.2.1⟩
+    · simp only [ostep, project, h]
+      exact ⟨rfl, by intro p hp; cases hp⟩
+
+/-- The outputs of the operations that are protocol operations (directly or in copy-on-write form). -/
+def propOuts (c : Cfg) : List (OOp Val) → List (Out Val) → List (Out Val)
+  | op :: ops, o :: os =>
+    if (project (Val := Val) c op).isSome then o :: propOuts c ops os else propOuts c ops os
+  | _, _ => []
+
+/-- Whole histories: the protocol state reached through any mixture of protocol operations, copies and helpers of
+other attributes is the one reached by the projected protocol operations alone, output for output. -/
+theorem orun_project (w : World Val) (c : Cfg) (y : Other Val) (ops : List (OOp Val)) :
+    ∀ o : Obj Val,
+      (orun w c y o ops).1.st = (run w c o.st (ops.filterMap (project c))).1 ∧
+      propOuts c ops (orun w c y o ops).2 = (run w c o.st (ops.filterMap (project c))).2 := by
+  induction ops with
+  | nil => intro o; exact ⟨rfl, rfl⟩
+  | cons op ops ih =>
+    intro o
+    have hstep := ostep_project w c y o op
+    have hrest := ih (ostep w c y o op).1
+    cases hp : project c op with
+    | none =>
+      simp only [hp] at hstep
+      simp only [orun, List.filterMap_cons, hp, propOuts, Option.isSome_none, Bool.false_eq_true, if_false]
+      rw [← hstep.1]
+      exact hrest
+    | some p =>
+      simp only [hp] at hstep
+      simp only [orun, List.filterMap_cons, hp, propOuts, Option.isSome_some, if_true, run]
+      rw [← hstep.1, hstep.2 p rfl]
+      exact ⟨hrest.1, by rw [hrest.2]⟩
+
+/-- An instance-level operation that raises returns no new instance and leaves the current one as it was. -/
+theorem ostep_failed_unchanged (w : World Val) (c : Cfg) (y : Other Val) (o : Obj Val) (op : OOp Val)
+    (h1 : ∀ v, (ostep w c y o op).2.1 ≠ .val v) (h2 : (ostep w c y o op).2.1 ≠ .done) :
+    (ostep w c y o op).1 = o ∧ (ostep w c y o op).2.2 = false := by
+  cases op with
+  | prop p =>
+    simp only [ostep] at h1 h2 ⊢
+    rw [step_failed_unchanged w c o.st p h1 h2]
+    simp
+  | copy => simp [ostep] at h2
+  | withOther v =>
+    simp only [ostep] at h1 h2 ⊢
+    split
+    · rename_i hs
+      simp only [hs, if_true] at h2
+      unfold mutateOther at h2 ⊢
+      split
+      · rename_i hh; simp [hh] at h2
+      · split
+        · exact ⟨rfl, rfl⟩
+        · rename_i hh hc; simp [hh, hc] at h2
+    · exact ⟨rfl, rfl⟩
+  | resetOther =>
+    simp only [ostep] at h1 h2 ⊢
+    split
+    · rename_i hs; simp [hs] at h2
+    · exact ⟨rfl, rfl⟩
+  | setOther v =>
+    simp only [ostep] at h1 h2 ⊢
+    split
+    · rename_i hs
+      simp only [hs, if_true] at h2
+      unfold mutateOther at h2 ⊢
+      split
+      · rename_i hh; simp [hh] at h2
+      · split
+        · exact ⟨rfl, rfl⟩
+        · rename_i hh hc; simp [hh, hc] at h2
+    · rename_i hs; simp [hs] at h2
+  | withSelf v =>
+    simp only [ostep] at h1 h2 ⊢
+    split
+    · rename_i hs
+      simp only [hs, if_true] at h2
+      unfold withSelf at h2 ⊢
+      split
+      · exact ⟨rfl, rfl⟩
+      · rename_i v' hp
+        simp only [hp] at h2
+        split
+        · rename_i hh; simp [hh] at h2
+        · split
+          · exact ⟨rfl, rfl⟩
+          · rename_i hh hc
+            simp only [hh, hc, Bool.false_eq_true, if_false, deepcopyObj_eq] at h2 ⊢
+            rcases pset_cases c o.st v' with hd | he
+            · exfalso; apply h2
+              generalize pset c o.st v' = r at hd ⊢
+              obtain ⟨st', out⟩ := r
+              simp only at hd; subst hd; rfl
+            · rw [he]; exact ⟨rfl, rfl⟩
+    · exact ⟨rfl, rfl⟩
+  | resetSelf =>
+    simp only [ostep] at h1 h2 ⊢
+    split
+    · rename_i hs
+      simp only [hs, if_true] at h2
+      unfold resetSelf at h2 ⊢
+      simp only [deepcopyObj_eq] at h2 ⊢
+      rcases pdelete_cases c o.st with hd | he
+      · exfalso; apply h2
+        generalize pdelete c o.st = r at hd ⊢
+        obtain ⟨st', out⟩ := r
+        simp only at hd; subst hd; rfl
+      · rw [he]; exact ⟨rfl, rfl⟩
+    · exact ⟨rfl, rfl⟩
+
 /-! ## class layouts -/
 
 theorem resolveFrom_managed (l : List ClassDesc) : ∀ st : Resolved × Bool,
